@@ -210,4 +210,28 @@ theorem code_start_is_modelled :
                   "[range] ContinueIf err==nil||!errors.Is(err,fs.ErrNotExist)",
                   "[range] Rename filepath.Join(bs.root,dirEntry.Name()) filename"]) := ⟨rfl, rfl⟩
 
+open Pithos.Gen in
+/-- T1: the list every registration method of `TxController` appends to. An after-commit closure
+must land in the root's AFTER-commit list: the removal of a `.txbackup.*` file may only happen once
+the database commit is durable (model: `afterActs` come after the commit point). -/
+theorem code_hook_routing_is_modelled :
+    TxFsHooks.hookRouting =
+      ["OnPreCommit root.onPreCommit", "OnAfterCommit root.onAfterCommit", "OnRollback root.onRollback"]
+    ∧ TxFsHooks.hookRoutingRoot =
+      ["OnPreCommit root:=t.rootTx()", "OnAfterCommit root:=t.rootTx()", "OnRollback root:=t.rootTx()"] := ⟨rfl, rfl⟩
+
+/-- **Negation witness for an after-commit closure routed into the pre-commit list**
+(`root.onPreCommit = append(root.onPreCommit, fn)` in `OnAfterCommit`): at the moment of the COMMIT
+the backup of the deleted part 3 is already unlinked while the database is still uncommitted —
+neither a rollback nor a start-up recovery can bring the part back. With the code's routing the
+backup is there. -/
+theorem after_commit_closure_in_pre_list_destroys_backup :
+    let fs0 := emptyFiles.set (.part 3) (some [4])
+    let bad : Routing := { Routing.code with onAfterCommit := ⟨true, .pre⟩ }
+    (Ctl.commitFails true (Ctl.registerAll bad {} [(.root, .del 3)] 0) fs0).1 (.backup 3 0) = none
+    ∧ (Ctl.commitFails true (Ctl.registerAll bad {} [(.root, .del 3)] 0) fs0).1 (.part 3) = none
+    ∧ (Ctl.commitFails true (Ctl.registerAll bad {} [(.root, .del 3)] 0) fs0).2 (.part 3) = none
+    ∧ (Ctl.commitFails true (Ctl.registerAll Routing.code {} [(.root, .del 3)] 0) fs0).1 (.backup 3 0) = some [4] := by
+  decide
+
 end Pithos.C10
